@@ -3,6 +3,8 @@ package main
 // Helpers shared by all property handlers.
 
 import (
+	"fmt"
+
 	"github.com/golang/geo/s2"
 
 	"verifharness/emb"
@@ -51,4 +53,16 @@ func sgn(x int) int {
 		return -1
 	}
 	return 0
+}
+
+func crossStr(c s2.Crossing) string {
+	switch c {
+	case s2.Cross:
+		return "CROSS"
+	case s2.MaybeCross:
+		return "MAYBE"
+	case s2.DoNotCross:
+		return "NO"
+	}
+	return fmt.Sprintf("BAD(%d)", int(c))
 }
